@@ -452,6 +452,8 @@ func valueFor(name, vt, cls string, wild bool) interface{} {
 		return []interface{}{}
 	case "xdashStr":
 		return "x-y"
+	case "refObj":
+		return obj{"$ref": "#/definitions/X"}
 	}
 	switch vt {
 	case "str":
